@@ -359,12 +359,15 @@ def measBasisOk (s : SeqState) (b : Basis) : Bool :=
 /-- `enable_eom_mode` after its parameters have been validated: fall wait + buffer, the new
 block, the optional drift correction, and the stored call (with the chosen off-detuning). -/
 def enableEomCommit (s : SeqState) (n : ChName) (c : ChanState) (e : EomIn) (detOff : Rat) : Raw :=
-  let drift : Drift := { rate := -detOff, ti := c.getDuration true }
   (s.withChan n fun c => enableEom s.dev.maxSeqDur c e.amp e.detOn detOff false false).bind fun s1 =>
     let r : Raw :=
       if e.corr then
         match (s1.getChan n).bind (·.slots.getLast?) with
-        | some buf => s1.phaseShift (-(drift.calc buf.tf)) buf.targets c.cfg.basis
+        | some buf =>
+          -- the drift runs over the buffer at `detuning_off`: from its start (after the adjusted
+          -- fall wait; repair of F40), not from the end of the previous pulse's fall time
+          let drift : Drift := { rate := -detOff, ti := max buf.ti 0 }
+          s1.phaseShift (-(drift.calc buf.tf)) buf.targets c.cfg.basis
         | none => fail s1 .noTarget
       else done s1
     store (.enableEom n { e with optimal := detOff }) r
